@@ -9,9 +9,9 @@ ENTRY = {
                   "thorough": {"prop": "C03", "mode": "meta", "cfgs": "mem1,mem1+noopt,memb,memb+noopt,mem1+only:JoinReorder,mem1+without:JoinReorder",
                                "strata": "filter,case,join,agg,distinct,setop,cte,values,sort_limit", "deny": "subquery,gsets", "types": "i64,f64,date,bool,i64", "sizes": "tiny,small"}}),
         fam("SQL", 150, 1500, driver="SQL",
-            opts={"quick": {"prop": "C03", "mode": "meta", "cfgs": "pq2x7,pq2x7+noopt", "nulls": "0",
+            opts={"quick": {"prop": "C03", "mode": "meta", "cfgs": "pq2x7,pq2x7+noopt,pq2x7+without:GroupKeyReduction", "nulls": "0",
                             "strata": "filter,case,join,agg,distinct,setop,cte,values,sort_limit", "deny": "subquery,gsets", "types": "i64,f64,date,bool,i64", "sizes": "tiny,small"},
-                  "thorough": {"prop": "C03", "mode": "meta", "cfgs": "pq2x7,pq2x7+noopt,pq1x0,pq1x0+noopt", "nulls": "0",
+                  "thorough": {"prop": "C03", "mode": "meta", "cfgs": "pq2x7,pq2x7+noopt,pq2x7+without:GroupKeyReduction,pq1x0,pq1x0+noopt,pq1x0+without:GroupKeyReduction", "nulls": "0",
                                "strata": "filter,case,join,agg,distinct,setop,cte,values,sort_limit", "deny": "subquery,gsets", "types": "i64,f64,date,bool,i64", "sizes": "tiny,small"}}),
     ],
     "gen_items": ["GroupKeyReduction::unique_key_gate", "ParquetTable::ndv_est_int", "PackedJoinKeys::pj_max2", "PackedJoinKeys::pj_k",
